@@ -1,6 +1,16 @@
 """Which engines decide which property, with their quick / thorough budgets."""
 
 
+def _c17_faults(**kw):
+    from .c17_faults import run
+    return run(**kw)
+
+
+def _c17_fuzz(**kw):
+    from .c17_fuzz import run
+    return run(**kw)
+
+
 def J(engine, variant="san", quick=None, thorough=None, **kw):
     d = {"engine": engine, "variant": variant, "quick": quick or {}, "thorough": thorough or {}}
     d.update(kw)
@@ -267,5 +277,48 @@ PROPERTIES = {
                    env={"VERIF_TMP": "/verif/build/run"}, threads=4),
                  J("C15_threads", subs=["exceptions"], quick={"cases": 150, "shards": 2, "max_size": 40}, thorough={"cases": 6000, "shards": 4, "max_size": 60},
                    env={"VERIF_TMP": "/verif/build/run"}, threads=4)],
+    },
+    "C10": {
+        "rule": "rapidcheck scenarios executed in child processes of the sanitized binary: tissues of 2-6 cells (five classes, radii 0.6-1.2 so "
+                "that small cells fall below the minimum volume and large epithelial cells exceed the division volume at once), um or unit "
+                "scale with similarity-scaled parameters, initial triangulation on (1/4) or off, l_min / cut-off / sampling-period "
+                "classes, 6-40 iterations, 1-16 threads; parameter file and mesh file are written to disk and run through the "
+                "main-equivalent (initializer -> solver -> run -> destructors). Each scenario runs once with the generated thread count and "
+                "four times single-threaded with heap fill bytes 0x00/0x55/0xBE/0xFF whose output digests must agree. Non-trivial = the "
+                "run completed and the population changed (division and/or removal); distinct = hash of the scenario. The regression replays "
+                "of every memory-safety finding (other engines' case files) are part of this check.",
+        "min_nontrivial": 5,
+        "assumptions": ["a verdict is any ASan / UBSan / _GLIBCXX_ASSERTIONS report, signal or terminate in a child; an exception reported the way "
+                        "main() reports it is fine", "leaks are not part of the property (cell <-> face shared_ptr cycle by design)",
+                        "schedule-dependent memory errors are sampled, not enumerated; stack / sub-object uninitialised reads are only covered "
+                        "by the valgrind pass of the thorough tier"],
+        "jobs": [J("C10_pipeline", quick={"cases": 3, "shards": 4, "max_size": 40}, thorough={"cases": 60, "shards": 6, "max_size": 60},
+                   env={"VERIF_TMP": "/verif/build/run"}),
+                 J("C10_pipeline", variant="san-cm0", quick={"cases": 2, "shards": 1, "max_size": 40}, thorough={"cases": 30, "shards": 3, "max_size": 60},
+                   env={"VERIF_TMP": "/verif/build/run"}),
+                 J("C10_pipeline", variant="san-cm2", quick={"cases": 2, "shards": 1, "max_size": 40}, thorough={"cases": 30, "shards": 3, "max_size": 60},
+                   env={"VERIF_TMP": "/verif/build/run"}),
+                 J("C10_pipeline", variant="san-dm1", quick={"cases": 2, "shards": 1, "max_size": 40}, thorough={"cases": 30, "shards": 3, "max_size": 60},
+                   env={"VERIF_TMP": "/verif/build/run"}),
+                 J("C10_pipeline", variant="plain", tiers=("thorough",), thorough={"cases": 3, "shards": 6, "max_size": 30},
+                   env={"VERIF_TMP": "/verif/build/run", "VERIF_VALGRIND": "1"})],
+    },
+    "C17": {
+        "level": "fault_enumeration",
+        "rule": "(b) exhaustive single-fault enumeration on valid templates (quick: 2 mesh + 1 parameter template; thorough: 3 + 3, including a "
+                "polygonal cube that goes through the reconstruction): every token deleted / duplicated / replaced by each of 15 hostile "
+                "values, every line replaced by 7 inconsistent count lines, every section removed / swapped, truncation at (every) byte "
+                "offset; every XML element removed / duplicated / emptied / self-closed / replaced by 22 hostile texts, every tag deleted, "
+                "every section removed or emptied; each mutant goes through the real start-up in the sanitized child. (a) libFuzzer (clang, "
+                "ASan+UBSan) on three targets with semantic oracles, half of the workers from the committed seeds and half from an empty "
+                "corpus. Non-trivial = a mutant that gets past the first syntactic check (completes, or fails with anything but the "
+                "header / file-not-found message), or a coverage-increasing fuzz input; distinct = mutation description / corpus file.",
+        "min_nontrivial": 500,
+        "assumptions": ["outcome must be completion or an exception derived from std::exception; signal, terminate, sanitizer report, RSS above 3 GB "
+                        "or a hang reproduced 3x (60 s) is a violation", "libFuzzer timeout-/oom-/slow-unit- artifacts are load noise unless they "
+                        "reproduce 3x stand-alone", "inputs whose extent / l_min ratio exceeds ~150 with the reconstruction enabled are excluded by "
+                        "construction (known finding KF1, counted) and replayed separately"],
+        "jobs": [{"custom": _c17_faults, "need_variants": ["san"], "engine": "C10_pipeline", "variant": "san", "quick": {}, "thorough": {}},
+                 {"custom": _c17_fuzz, "need_variants": ["fuzz"], "quick": {}, "thorough": {}, "fuzz_seconds": {"quick": 40, "thorough": 600}, "fuzz_workers": 5}],
     },
 }
